@@ -214,7 +214,7 @@ func classify(cmd metax.Cmd, ra, rb metax.Result, diff []string, noSki bool) str
 		return "recover_metadata_on_fresh_store"
 	case noSki && diff == nil && (cmd.Kind == "CreateShardGroup" || cmd.Kind == "CreateMeasurement" || cmd.Kind == "AlterShardKey"):
 		return "maporder_measurement_without_shardkey"
-	case diff != nil && strings.Contains(all, ".StartTime:") && strings.Contains(cmd.Text, " -92233720"):
+	case diff != nil && strings.Contains(all, ".StartTime:") && cmd.Kind == "CreateShardGroup" && strings.Contains(cmd.Text, " -922"):
 		return "group_start_before_int64_range"
 	}
 	return ""
